@@ -75,14 +75,21 @@ Theorem parse_total : forall bs,
   (exists d, parse_def bs = Ok d) \/ (exists e, parse_def bs = Err e /\ e <> OutOfFuel).
 Proof. exact parse_total_l. Qed.
 
-(* variants the (repaired) writer accepts have one value per control slot and a name
-   'def.key' of at most 32 bytes, so they satisfy the round-trip hypothesis *)
-Theorem variants_shape : forall name ctl names src vs,
-  resolve_variants name ctl names src = Some vs ->
-  List.length vs = List.length src
-  /\ forall v, In v vs -> List.length (v_vals v) = List.length ctl /\ zlen (v_name v) <= 32
-                          /\ exists key, v_name v = name ++ 46 :: key.
+(* the variants the (repaired) writer writes -- the valid prefix of the declared ones -- have one
+   value per control slot and a name 'def.key' of at most 32 bytes, so they satisfy the round-trip
+   hypothesis; nothing is dropped when every variant is valid *)
+Theorem variants_shape : forall name ctl names src,
+  (List.length (resolve_variants name ctl names src) <= List.length src)%nat
+  /\ forall v, In v (resolve_variants name ctl names src) ->
+       List.length (v_vals v) = List.length ctl /\ zlen (v_name v) <= 32
+       /\ exists key, v_name v = name ++ 46 :: key.
 Proof. exact resolve_variants_shape. Qed.
+
+Theorem variants_all_written_when_valid : forall name ctl names src,
+  forallb (fun kp => (zlen (name ++ 46 :: fst kp) <=? 32)
+                     && match apply_pairs names ctl (snd kp) with Some _ => true | None => false end) src = true ->
+  List.length (resolve_variants name ctl names src) = List.length src.
+Proof. exact resolve_variants_all. Qed.
 
 (* ---- non-vacuity: a concrete definition (SinOsc.ar(freq) -> Pan2 -> Out, one control 'gate'),
         accepted by the writer, well-formed, read back by both readers ---- *)
@@ -113,8 +120,8 @@ Proof. vm_compute. reflexivity. Qed.
 Example ex_variant_count_without_variant :
   parse_def (enc_header ++ enc_pstr (bs_of_string "a"%string) ++ enc_i32 0 ++ enc_i32 0 ++ enc_i32 0 ++ enc_i32 0 ++ enc_i16 1) = Err Truncated.
 Proof. vm_compute. reflexivity. Qed.
-Example ex_invalid_variant_rejected :
-  resolve_variants (bs_of_string "a"%string) [0] [(bs_of_string "freq"%string, 0, 1)] [(bs_of_string "v"%string, [(bs_of_string "nope"%string, [1])])] = None.
+Example ex_invalid_variant_dropped :
+  resolve_variants (bs_of_string "a"%string) [0] [(bs_of_string "freq"%string, 0, 1)] [(bs_of_string "v"%string, [(bs_of_string "nope"%string, [1])])] = [].
 Proof. vm_compute. reflexivity. Qed.
 
 Print Assumptions scgf_roundtrip.
